@@ -171,10 +171,10 @@ async fn run_history(c: &Case, shard_tag: u32) -> Verdict {
     };
     let dns_is_53 = dns.addr.port() == 53;
     servers.push(dns);
-    let closed_port = {
-        let s = std::net::UdpSocket::bind("127.0.0.1:0").map_err(|e| herr(e.to_string()))?;
-        s.local_addr().unwrap()
-    };
+    // a closed port outside the ephemeral range, private to this worker (nobody ever binds it)
+    let closed_port: SocketAddr = format!("127.0.0.1:{}", 12_000 + (engine::SHARD.load(std::sync::atomic::Ordering::SeqCst) % 64) * 16 + shard_tag % 16)
+        .parse()
+        .unwrap();
     let mut client = open_mux(&world).await.map_err(herr)?;
     let base = gauge(&world);
     let mut flows: Vec<FlowModel> = (0..4)
